@@ -204,6 +204,49 @@ def detection_obligations(lib, path):
     return out
 
 
+# ---- _create_test_item / _add_test_item -----------------------------------------------------------------------------
+TS = z3.Function('dt_timestamp', z3.IntSort(), z3.IntSort())           # POSIX timestamp of the instant (whole seconds)
+OFFS = z3.Function('dt_utcoffset_seconds', z3.IntSort(), z3.IntSort())
+DSTS = z3.Function('dt_dst_seconds', z3.IntSort(), z3.IntSort())
+FIELD = {n: z3.Function('dt_' + n, z3.IntSort(), z3.IntSort()) for n in ('year', 'month', 'day', 'hour', 'minute', 'second', 'tzname')}
+
+
+def _timedelta(secs):
+    # a timedelta of whole seconds: .seconds is the component in [0, 86400) -- NOT the signed length --, .days the floor quotient
+    return Record({'_total': secs, 'seconds': secs % 86400, 'days': secs / 86400})
+
+
+def item_obligations(lib, path):
+    """_create_test_item: every field of the item is what the library reports for that datetime (timedelta.total_seconds(), not
+    .seconds, which drops the sign); _add_test_item: an item already present is never replaced by a sample, transition tags win"""
+    t = z3.Int('it_t')
+    methods = dict(METHODS)
+    methods.update({
+        'timestamp': lambda ex, base, args, kw, pc: TS(as_int(base)),
+        'utcoffset': lambda ex, base, args, kw, pc: _timedelta(OFFS(as_int(base))),
+        'dst': lambda ex, base, args, kw, pc: _timedelta(DSTS(as_int(base))),
+        'total_seconds': lambda ex, base, args, kw, pc: base.fields['_total'],
+        'tzname': lambda ex, base, args, kw, pc: FIELD['tzname'](as_int(args[0])),
+    })
+    attrs = {n: (lambda ex, base, n=n: FIELD[n](as_int(base))) for n in ('year', 'month', 'day', 'hour', 'minute', 'second')}
+    attrs['tzinfo'] = lambda ex, base: Record({'_tz': 1})
+    ex = PyExec(path, models={}, consts=CONSTS, method_models=methods, attr_models=attrs)
+    paths = ex.run('TestDataGenerator._create_test_item', {'dt': t, 'tag': z3.Int('it_tag')})
+    out = []
+    for k, p in enumerate(paths):
+        if p.outcome != 'return' or not isinstance(p.value, Record):
+            out.append(('py:%s:_create_test_item#returns-an-item#%d' % (lib, k), p.pc, z3.BoolVal(False)))
+            continue
+        f = p.value.fields
+        want = {'epoch': TS(t) - 946684800, 'total_offset': OFFS(t), 'dst_offset': DSTS(t), 'y': FIELD['year'](t), 'M': FIELD['month'](t), 'd': FIELD['day'](t),
+                'h': FIELD['hour'](t), 'm': FIELD['minute'](t), 's': FIELD['second'](t), 'abbrev': FIELD['tzname'](t), 'type': z3.Int('it_tag')}
+        for name, w in want.items():
+            got = f.get(name)
+            out.append(('py:%s:_create_test_item#%s-is-what-the-library-reports#%d' % (lib, name, k), p.pc,
+                        (as_int(got) == w) if got is not None else z3.BoolVal(False)))
+    return out
+
+
 def all_obligations():
     out = []
     stats = {}
@@ -211,7 +254,7 @@ def all_obligations():
         try:
             o1, n1 = search_obligations(lib, path)
             o2, n2 = iteration_obligations(lib, path)
-            o3 = detection_obligations(lib, path)
+            o3 = detection_obligations(lib, path) + item_obligations(lib, path)
         except (KeyError, TypeError, AttributeError, StopIteration) as e:
             raise PyOutOfReach('contract of %s does not fit the code shape: %r' % (lib, e))
         out += o1 + o2 + o3
